@@ -33,7 +33,7 @@ def render(case):
     vals = []
     for i, vs in enumerate(case.get("vals", [])):
         c = vc[i] if isinstance(vc, list) else vc
-        vals.append(data.render_val(vs, c, index if c.startswith("series") or c.startswith("pd_") else None))
+        vals.append(data.render_val(vs, c, index if c.startswith("series") or c.startswith("pd_") or vs["dtype"].startswith("tz:") else None))
     mask = data.render_mask(case.get("mask"), n, r.get("mc", "np"), index)
     return keys, vals, mask, index
 
